@@ -316,3 +316,74 @@ pub fn record(args: &[String]) {
         }
     }
 }
+
+/// anz-symtrace <seed> <corpus.json> <n_mut> <n_rand> <out.ndjson> <summary.json> [gram-cases.ndjson]
+/// Run the REAL semantic analysis on every corpus / mutated / random text that parses without any
+/// diagnostic and record the symbol-table operations it performs (hook oq3_semantics::verif), one
+/// "reset" ... "done" block per program, for validation against AnalyzerSymTrace.tla (B3; C03, C07, C19).
+pub fn record_analysis(args: &[String]) {
+    use oq3_semantics::syntax_to_semantics::parse_source_string_with_path_search;
+    let seed: u64 = args[0].parse().unwrap();
+    let corpus: Vec<String> = serde_json::from_str(&std::fs::read_to_string(&args[1]).unwrap()).unwrap();
+    let n_mut: usize = args[2].parse().unwrap();
+    let n_rand: usize = args[3].parse().unwrap();
+    let mut inputs = crate::gen::robustness_inputs(seed, &corpus, n_mut, n_rand);
+    // optional: programs of the wider grammar generated by TLC from RefGrammar/GrammarCases (they parse cleanly by construction)
+    if args.len() > 6 {
+        for c in read_ndjson(&args[6]) {
+            let toks: Vec<String> = c["toks"].as_array().unwrap().iter().map(|t| crate::lex::expand(t.as_str().unwrap())).collect();
+            inputs.push(crate::gram::render(&toks, 0));
+        }
+    }
+    let mut out = NdjsonOut::create(&args[4]);
+    let (mut analysed, mut records, mut skipped_syntax) = (0usize, 0usize, 0usize);
+    let mut panics: Vec<Value> = vec![];
+    let mut bad_init: Vec<Value> = vec![];
+    let mut seen = std::collections::HashSet::new();
+    let max_ops: usize = std::env::var("SYMTRACE_MAX_OPS").ok().and_then(|s| s.parse().ok()).unwrap_or(400);
+    for t in &inputs {
+        if t.len() > 6000 || !seen.insert(t.clone()) { continue; }
+        // only programs that parse without any diagnostic (lexical or syntactic)
+        let clean = guarded(|| {
+            let p = oq3_syntax::SourceFile::parse(t);
+            p.errors().is_empty() && !crate::pipe::tree_has_error(&p.syntax_node())
+        }).unwrap_or(false);
+        if !clean { skipped_syntax += 1; continue; }
+        // `include` needs the file system: texts with includes other than stdgates.inc are left to C18
+        if t.contains("include") && !t.contains("stdgates.inc") { continue; }
+        oq3_semantics::verif::start_recording();
+        let r = guarded(|| {
+            let res = parse_source_string_with_path_search(t.as_str(), Some("main.qasm"), None::<&[std::path::PathBuf]>);
+            let st = res.symbol_table();
+            (st.verif_scope_depth(), st.verif_num_symbols(), res.any_syntax_errors())
+        });
+        let trace = oq3_semantics::verif::take_trace();
+        // the first 8 records are SymbolTable::new(): enter Global + 7 built-ins with ids 0..6
+        let init_ok = trace.len() >= 8 && trace[0].op == "enter" && trace[0].a == "Global"
+            && trace[1..8].iter().enumerate().all(|(i, e)| e.op == "bind" && e.res == i as i64);
+        if !init_ok { bad_init.push(json!({"text": t, "head": trace.iter().take(9).map(|e| format!("{:?}", e)).collect::<Vec<_>>() })); continue; }
+        if trace.len() - 8 > max_ops { continue; }
+        out.put(&json!({"ev": "reset", "text": t}));
+        records += 1;
+        for e in &trace[8..] {
+            let v = match e.op {
+                "enter" => json!({"ev": "enter", "kind": e.a}),
+                "exit" => json!({"ev": "exit"}),
+                "bind" => json!({"ev": "bind", "name": model_name(&e.a), "type": e.b, "id": e.res}),
+                "bindfail" => json!({"ev": "bindfail", "name": model_name(&e.a), "type": e.b}),
+                "lookup" => json!({"ev": "lookup", "name": model_name(&e.a), "id": e.res}),
+                other => json!({"ev": other}),
+            };
+            out.put(&v);
+            records += 1;
+        }
+        match r {
+            Ok((depth, nsyms, syn)) => out.put(&json!({"ev": "done", "panicked": false, "depth": depth, "nsyms": nsyms, "syntax_errors": syn})),
+            Err(p) => { panics.push(json!({"text": t, "panic": p})); out.put(&json!({"ev": "done", "panicked": true, "depth": -1, "nsyms": -1, "syntax_errors": false})) }
+        }
+        records += 1;
+        analysed += 1;
+    }
+    std::fs::write(&args[5], serde_json::to_string(&json!({"analysed": analysed, "records": records, "skipped_syntax": skipped_syntax,
+        "panics": panics, "bad_init": bad_init, "inputs": inputs.len()})).unwrap()).unwrap();
+}
